@@ -87,9 +87,35 @@ OkFz(o) ==
     \* the harness observer agrees with the specification's framing (cross-check of the trusted base)
     /\ o.small => (o.obs_ok = d.ok /\ (d.ok => o.obs_size = d.size))
 
-Props == {"C01", "C02", "C03", "C04", "C10"}
+\* ---- C18 on arbitrary (mutated) bytes: options only filter or decorate.  res[i], i in 1..17, is the
+\* result under option index i (bits of i - 1: validation 1, key 2, unknown data 4, not_ignore 8;
+\* 17 = no context); `types` = attribute types returned, in order.
+FzBit(i, b) == ((i - 1) \div b) % 2 = 1
+IsSubseq(a, b) ==   \* a is a subsequence of b (greedy matching is exact for subsequences)
+    LET F[k \in 0..Len(a)] ==
+          IF k = 0 THEN 0
+          ELSE LET prev == F[k - 1]
+                   S == {j \in (prev + 1)..Len(b) : b[j] = a[k]}
+               IN IF prev = -1 \/ S = {} THEN -1 ELSE CHOOSE j \in S : \A j2 \in S : j <= j2
+    IN F[Len(a)] # -1
+OkFzC18(o) ==
+    /\ ("types" \in DOMAIN o.res[1]) =>
+        /\ \A i \in 1..16 :
+              \* validation on and succeeding => the same message without validation
+              /\ (FzBit(i, 1) /\ o.res[i].ok) => (o.res[i - 1].ok /\ o.res[i - 1].types = o.res[i].types)
+              \* a key without validation, and keeping the data of unknown attributes, change nothing
+              /\ (FzBit(i, 2) /\ ~FzBit(i, 1)) => o.res[i] = o.res[i - 2]
+              /\ FzBit(i, 4) => o.res[i] = o.res[i - 4]
+        \* without validation the opt-out only adds attributes
+        /\ o.res[9].ok = o.res[1].ok
+        /\ o.res[1].ok => IsSubseq(o.res[1].types, o.res[9].types)
+        \* no context = default context
+        /\ o.res[17] = o.res[1]
+
+Props == {"C01", "C02", "C03", "C04", "C10", "C18"}
 Holds(p, cur, o) ==
-    IF o.op = "rt"
+    IF p = "C18" THEN (o.op = "fz" => OkFzC18(o))
+    ELSE IF o.op = "rt"
     THEN CASE p = "C01" -> OkC01(o) [] p = "C02" -> OkC02(o) [] p = "C04" -> OkC04(o)
            [] p = "C10" -> OkC10(o) [] p = "C03" -> (o.enc # "panic" /\ o.dec # "panic")
     ELSE IF o.op \in {"mt", "mt_from"} THEN (p = "C02" => OkMt(o))
